@@ -221,5 +221,7 @@ SnapshotAtEntryIsIdentity ==
 
 \* ------------------------------------------------------------------ emission
 Leaf == IsOos \/ NCalls >= MaxCalls \/ EndsSeen > AfterEnd
-Emit == (EmitBeh /\ Leaf /\ ~IsOos) => PrintT(<<"BEH", ToJson([case |-> P.id, steps |-> hist])>>)
+\* (a behaviour that leaves the modelled window is printed too: its last step expects "oos",
+\*  i.e. no verdict except that the library must not panic there or afterwards)
+Emit == (EmitBeh /\ Leaf) => PrintT(<<"BEH", ToJson([case |-> P.id, steps |-> hist])>>)
 =============================================================================
